@@ -1039,4 +1039,10 @@ def check_C06(tier, seed):
     for j in range(0, len(cases), step):
         cls, var, txt, k = cases[j]
         res.samples.append(dict(damage_class=cls, variant=var, input=txt[:300], impl=split_line(d_str[j])[1][:100]))
+    if tier == "thorough" and proof.get("ok"):
+        with core.Lock():
+            ok, out = core.coqchk("C06")
+        res.coverage["coqchk"] = "ok" if ok else "FAILED"
+        if not ok:
+            res.add_tie_break("coqchk rejects the compiled proofs", error=out[-1500:])
     return res.finish(proof, rule)
